@@ -30,8 +30,9 @@ type Obj struct {
 
 // table DSL: one line per owner:  owner : item item ...
 // item forms:  name/len          method (W=1 E=0 C=1)
-//              name/len!         constructor function (W=1 E=0 C=1, has [[Construct]])
-//              name=kind:attrs   value property
+//
+//	name/len!         constructor function (W=1 E=0 C=1, has [[Construct]])
+//	name=kind:attrs   value property
 const tableText = `
 this : NaN=number:000 Infinity=number:000 undefined=undefined:000 eval/1 parseInt/2 parseFloat/1 isNaN/1 isFinite/1 decodeURI/1 decodeURIComponent/1 encodeURI/1 encodeURIComponent/1 Object/1! Function/1! Array/1! String/1! Boolean/1! Number/1! Date/7! RegExp/2! Error/1! EvalError/1! RangeError/1! ReferenceError/1! SyntaxError/1! TypeError/1! URIError/1! Math=object:101 JSON=object:101
 Object : prototype=object:000 getPrototypeOf/1 getOwnPropertyDescriptor/2 getOwnPropertyNames/1 create/2 defineProperty/3 defineProperties/2 seal/1 freeze/1 preventExtensions/1 isSealed/1 isFrozen/1 isExtensible/1 keys/1
@@ -134,173 +135,173 @@ var values = map[string]string{
 // Distinguishing calls: each input/output pair is one that no other built-in
 // bound under the name would produce.
 var probes = map[string][2]string{
-	"this.eval":                              {`var ex = "global"; (function(){ var ex = "local"; var r = eval("ex") + "|" + (0, eval)("ex"); eval("var ev = 5"); return r + "|" + ev + "|" + (typeof this.ev) })() + "|" + eval("1+2*3")`, "local|global|5|undefined|7"},
-	"this.parseInt":                          {`parseInt("12px", 10) + "|" + parseInt("ff", 16)`, "12|255"},
-	"this.parseFloat":                        {`parseFloat("1.5e1x")`, "15"},
-	"this.isNaN":                             {`isNaN("x") + "|" + isNaN(1) + "|" + isNaN(1/0)`, "true|false|false"},
-	"this.isFinite":                          {`isFinite("x") + "|" + isFinite(1) + "|" + isFinite(1/0)`, "false|true|false"},
-	"this.decodeURI":                         {`decodeURI("%41%23%3B")`, "A%23%3B"},
-	"this.decodeURIComponent":                {`decodeURIComponent("%41%23%3B")`, "A#;"},
-	"this.encodeURI":                         {`encodeURI("a b#;")`, "a%20b#;"},
-	"this.encodeURIComponent":                {`encodeURIComponent("a b#;")`, "a%20b%23%3B"},
-	"this.Object":                            {`Object(1) instanceof Number && typeof new Object() === "object" && Object.prototype.toString.call(new Object("s"))`, "[object String]"},
-	"this.Function":                          {`new Function("a", "b", "return a*b")(6, 7) + "|" + Function("return 5")()`, "42|5"},
-	"this.Array":                             {`new Array(3).length + "|" + Array(1, 2).join("-") + "|" + new Array("3").length`, "3|1-2|1"},
-	"this.String":                            {`String(12) + typeof String(1) + typeof new String(1) + new String("ab").length`, "12stringobject2"},
-	"this.Boolean":                           {`Boolean("") + "|" + Boolean("0") + "|" + typeof new Boolean(0) + "|" + typeof Boolean(0)`, "false|true|object|boolean"},
-	"this.Number":                            {`Number("0x10") + "|" + Number() + "|" + typeof new Number(1) + "|" + Number("")`, "16|0|object|0"},
-	"this.Date":                              {`new Date(0).getTime() + "|" + typeof Date() + "|" + new Date(2000, 0).getFullYear() + "|" + new Date(86400000).getUTCDate()`, "0|string|2000|2"},
-	"this.RegExp":                            {`new RegExp("a+", "g").source + "|" + RegExp("b", "i").ignoreCase + "|" + new RegExp("a+").exec("caab")[0]`, "a+|true|aa"},
-	"this.Error":                             {`new Error("m").message + "|" + Error("k").message + "|" + (Error("x") instanceof Error) + "|" + new Error("q").name`, "m|k|true|Error"},
-	"this.EvalError":                         {`var e = new EvalError("m"); e.name + "|" + e.message + "|" + (e instanceof Error) + (e instanceof EvalError) + (e instanceof TypeError)`, "EvalError|m|truetruefalse"},
-	"this.RangeError":                        {`var e = new RangeError("m"); e.name + "|" + e.message + "|" + (e instanceof Error) + (e instanceof RangeError) + (e instanceof TypeError)`, "RangeError|m|truetruefalse"},
-	"this.ReferenceError":                    {`var e = new ReferenceError("m"); e.name + "|" + e.message + "|" + (e instanceof Error) + (e instanceof ReferenceError) + (e instanceof TypeError)`, "ReferenceError|m|truetruefalse"},
-	"this.SyntaxError":                       {`var e = new SyntaxError("m"); e.name + "|" + e.message + "|" + (e instanceof Error) + (e instanceof SyntaxError) + (e instanceof TypeError)`, "SyntaxError|m|truetruefalse"},
-	"this.TypeError":                         {`var e = new TypeError("m"); e.name + "|" + e.message + "|" + (e instanceof Error) + (e instanceof TypeError) + (e instanceof RangeError)`, "TypeError|m|truetruefalse"},
-	"this.URIError":                          {`var e = new URIError("m"); e.name + "|" + e.message + "|" + (e instanceof Error) + (e instanceof URIError) + (e instanceof TypeError)`, "URIError|m|truetruefalse"},
-	"Object.getPrototypeOf":                  {`Object.getPrototypeOf([]) === Array.prototype`, "true"},
-	"Object.getOwnPropertyDescriptor":        {`var d = Object.getOwnPropertyDescriptor([1], "length"); d.value + "|" + d.writable + d.enumerable + d.configurable`, "1|truefalsefalse"},
-	"Object.getOwnPropertyNames":             {`Object.getOwnPropertyNames([7]).sort().join()`, "0,length"},
-	"Object.create":                          {`var p = {a: 1}; var o = Object.create(p, {b: {value: 2}}); o.a + "|" + o.b + "|" + (Object.getPrototypeOf(o) === p) + "|" + Object.keys(o).length`, "1|2|true|0"},
-	"Object.defineProperty":                  {`var o = {}; var r = Object.defineProperty(o, "x", {value: 3}); (r === o) + "|" + o.x + "|" + Object.keys(o).length`, "true|3|0"},
-	"Object.defineProperties":                {`var o = {}; Object.defineProperties(o, {x: {value: 3, enumerable: true}, y: {value: 4}}); o.x + o.y + "|" + Object.keys(o).join()`, "7|x"},
-	"Object.seal":                            {`var o = {a: 1}; Object.seal(o); o.a = 2; delete o.a; o.b = 1; o.a + "|" + ("b" in o) + "|" + Object.isSealed(o) + Object.isFrozen(o)`, "2|false|truefalse"},
-	"Object.freeze":                          {`var o = {a: 1}; Object.freeze(o); o.a = 2; delete o.a; o.b = 1; o.a + "|" + ("b" in o) + "|" + Object.isFrozen(o)`, "1|false|true"},
-	"Object.preventExtensions":               {`var o = {a: 1}; Object.preventExtensions(o); o.a = 2; o.b = 1; var r = o.a + "|" + ("b" in o); delete o.a; r + "|" + ("a" in o) + Object.isSealed({})`, "2|false|falsefalse"},
-	"Object.isSealed":                        {`Object.isSealed(Object.seal({a: 1})) + "|" + Object.isSealed({a: 1}) + "|" + Object.isSealed(Object.preventExtensions({a: 1})) + "|" + Object.isSealed(Object.preventExtensions({}))`, "true|false|false|true"},
-	"Object.isFrozen":                        {`Object.isFrozen(Object.seal({a: 1})) + "|" + Object.isFrozen(Object.freeze({a: 1})) + "|" + Object.isFrozen({})`, "false|true|false"},
-	"Object.isExtensible":                    {`Object.isExtensible({}) + "|" + Object.isExtensible(Object.preventExtensions({}))`, "true|false"},
-	"Object.keys":                            {`Object.keys({b: 1, a: 2}).join() + "|" + Object.keys([5]).join()`, "b,a|0"},
-	"Object.prototype.toString":              {`Object.prototype.toString.call([]) + Object.prototype.toString.call(null)`, "[object Array][object Null]"},
-	"Object.prototype.toLocaleString":        {`Object.prototype.toLocaleString.call({toString: function() { return "T" }})`, "T"},
-	"Object.prototype.valueOf":               {`var o = {}; (o.valueOf() === o) + "|" + typeof Object.prototype.valueOf.call(1)`, "true|object"},
-	"Object.prototype.hasOwnProperty":        {`({a: 1}).hasOwnProperty("a") + "|" + ({}).hasOwnProperty("toString")`, "true|false"},
-	"Object.prototype.isPrototypeOf":         {`Array.prototype.isPrototypeOf([]) + "|" + Array.prototype.isPrototypeOf({}) + "|" + Object.prototype.isPrototypeOf([])`, "true|false|true"},
-	"Object.prototype.propertyIsEnumerable":  {`[1].propertyIsEnumerable("0") + "|" + [1].propertyIsEnumerable("length") + "|" + ({}).propertyIsEnumerable("toString")`, "true|false|false"},
-	"Function.prototype.toString":            {`typeof Function.prototype.toString.call(function() {}) + "|" + (function() { try { Function.prototype.toString.call({}); return "no" } catch (e) { return e instanceof TypeError } })()`, "string|true"},
-	"Function.prototype.apply":               {`(function(a, b) { return this.x + a + b }).apply({x: 1}, [2, 3])`, "6"},
-	"Function.prototype.call":                {`(function(a, b) { return this.x + a + b }).call({x: 1}, 2, 3)`, "6"},
-	"Function.prototype.bind":                {`var f = (function(a, b) { return this.x + a + b }).bind({x: 1}, 2); f(3) + "|" + f.length`, "6|1"},
-	"Array.isArray":                          {`Array.isArray([]) + "|" + Array.isArray({length: 0}) + "|" + Array.isArray(Array.prototype)`, "true|false|true"},
-	"Array.prototype.toString":               {`[1, [2, 3]].toString() + "|" + Array.prototype.toString.call({join: function() { return "J" }})`, "1,2,3|J"},
-	"Array.prototype.toLocaleString":         {`[{toLocaleString: function() { return "L" }, toString: function() { return "S" }}, 2].toLocaleString().charAt(0)`, "L"},
-	"Array.prototype.concat":                 {`[1].concat([2, [3]], 4).length + "|" + [1].concat(2).join("")`, "4|12"},
-	"Array.prototype.join":                   {`[1, null, 3].join("-") + "|" + [1, 2].join()`, "1--3|1,2"},
-	"Array.prototype.pop":                    {`var a = [1, 2, 3]; a.pop() + "|" + a.join()`, "3|1,2"},
-	"Array.prototype.push":                   {`var a = [1]; a.push(2, 3) + "|" + a.join()`, "3|1,2,3"},
-	"Array.prototype.reverse":                {`[1, 2, 3].reverse().join()`, "3,2,1"},
-	"Array.prototype.shift":                  {`var a = [1, 2, 3]; a.shift() + "|" + a.join()`, "1|2,3"},
-	"Array.prototype.slice":                  {`[1, 2, 3, 4].slice(1, -1).join()`, "2,3"},
-	"Array.prototype.sort":                   {`[3, 1, 10, 2].sort().join() + "|" + [3, 1, 10, 2].sort(function(a, b) { return a - b }).join()`, "1,10,2,3|1,2,3,10"},
-	"Array.prototype.splice":                 {`var a = [1, 2, 3, 4]; a.splice(1, 2, 9).join() + "|" + a.join()`, "2,3|1,9,4"},
-	"Array.prototype.unshift":                {`var a = [3]; a.unshift(1, 2) + "|" + a.join()`, "3|1,2,3"},
-	"Array.prototype.indexOf":                {`[1, 2, 1].indexOf(1) + "|" + [1, 2, 1].indexOf(1, 1) + "|" + [1].indexOf(3)`, "0|2|-1"},
-	"Array.prototype.lastIndexOf":            {`[1, 2, 1].lastIndexOf(1) + "|" + [1, 2, 1].lastIndexOf(1, 1) + "|" + [1].lastIndexOf(3)`, "2|0|-1"},
-	"Array.prototype.every":                  {`[1, 2].every(function(x) { return x > 0 }) + "|" + [1, 2].every(function(x) { return x > 1 }) + "|" + [].every(function() { return false })`, "true|false|true"},
-	"Array.prototype.some":                   {`[1, 2].some(function(x) { return x > 1 }) + "|" + [1, 2].some(function(x) { return x > 2 }) + "|" + [].some(function() { return true })`, "true|false|false"},
-	"Array.prototype.forEach":                {`var s = ""; var r = [1, 2].forEach(function(x, i) { s += x + ":" + i + ";" }); s + r`, "1:0;2:1;undefined"},
-	"Array.prototype.map":                    {`[1, 2].map(function(x) { return x * 2 }).join()`, "2,4"},
-	"Array.prototype.filter":                 {`[1, 2, 3].filter(function(x) { return x % 2 }).join()`, "1,3"},
-	"Array.prototype.reduce":                 {`["a", "b", "c"].reduce(function(a, x) { return a + x })`, "abc"},
-	"Array.prototype.reduceRight":            {`["a", "b", "c"].reduceRight(function(a, x) { return a + x })`, "cba"},
-	"String.fromCharCode":                    {`String.fromCharCode(97, 65601)`, "aA"},
-	"String.prototype.toString":              {`new String("x").toString() + typeof new String("x").toString() + (function() { try { String.prototype.toString.call(1); return "no" } catch (e) { return e instanceof TypeError } })()`, "xstringtrue"},
-	"String.prototype.valueOf":               {`typeof new String("x").valueOf() + (function() { try { String.prototype.valueOf.call({}); return "no" } catch (e) { return e instanceof TypeError } })()`, "stringtrue"},
-	"String.prototype.charAt":                {`"abc".charAt(1) + "|" + "abc".charAt(5) + "|"`, "b||"},
-	"String.prototype.charCodeAt":            {`"abc".charCodeAt(1) + "|" + "abc".charCodeAt(5)`, "98|NaN"},
-	"String.prototype.concat":                {`"a".concat("b", 1, null)`, "ab1null"},
-	"String.prototype.indexOf":               {`"abcab".indexOf("b") + "|" + "abcab".indexOf("b", 2) + "|" + "a".indexOf("z")`, "1|4|-1"},
-	"String.prototype.lastIndexOf":           {`"abcab".lastIndexOf("b") + "|" + "abcab".lastIndexOf("b", 3) + "|" + "a".lastIndexOf("z")`, "4|1|-1"},
-	"String.prototype.localeCompare":         {`"a".localeCompare("a") + "|" + ("a".localeCompare("b") < 0) + "|" + ("b".localeCompare("a") > 0)`, "0|true|true"},
-	"String.prototype.match":                 {`"a1b22".match(/\d+/g).join() + "|" + "a1b22".match(/(\d)(\d)/)[2] + "|" + "x".match(/y/)`, "1,22|2|null"},
-	"String.prototype.replace":               {`"aXbX".replace("X", "-") + "|" + "aXbX".replace(/X/g, "-")`, "a-bX|a-b-"},
-	"String.prototype.search":                {`"abc".search(/c/) + "|" + "abc".search("z")`, "2|-1"},
-	"String.prototype.slice":                 {`"abcd".slice(1, -1) + "|" + "abcd".slice(3, 1) + "|"`, "bc||"},
-	"String.prototype.split":                 {`"a,b,c".split(",", 2).join("|") + "#" + "ab".split("").length`, "a|b#2"},
-	"String.prototype.substring":             {`"abcd".substring(3, 1) + "|" + "abcd".substring(-1, 2)`, "bc|ab"},
-	"String.prototype.toLowerCase":           {`"aBc".toLowerCase()`, "abc"},
-	"String.prototype.toLocaleLowerCase":     {`"aBc".toLocaleLowerCase()`, "abc"},
-	"String.prototype.toUpperCase":           {`"aBc".toUpperCase()`, "ABC"},
-	"String.prototype.toLocaleUpperCase":     {`"aBc".toLocaleUpperCase()`, "ABC"},
-	"String.prototype.trim":                  {`"[" + " \t\n a b \r\n".trim() + "]"`, "[a b]"},
-	"Boolean.prototype.toString":             {`true.toString() + new Boolean(false).toString() + (function() { try { Boolean.prototype.toString.call(1); return "no" } catch (e) { return e instanceof TypeError } })()`, "truefalsetrue"},
-	"Boolean.prototype.valueOf":              {`typeof new Boolean(false).valueOf() + new Boolean(false).valueOf()`, "booleanfalse"},
-	"Number.prototype.toString":              {`(255).toString(16) + "|" + (255).toString() + "|" + (-5).toString(2)`, "ff|255|-101"},
-	"Number.prototype.toLocaleString":        {`typeof (1).toLocaleString()`, "string"},
-	"Number.prototype.valueOf":               {`typeof new Number(3).valueOf() + new Number(3).valueOf()`, "number3"},
-	"Number.prototype.toFixed":               {`(1.005).toFixed(1) + "|" + (12).toFixed(2) + "|" + (1e21).toFixed(2)`, "1.0|12.00|1e+21"},
-	"Number.prototype.toExponential":         {`(12345).toExponential(2).slice(0, 5) + "|" + (0).toExponential(1).slice(0, 4)`, "1.23e|0.0e"},
-	"Number.prototype.toPrecision":           {`(12345).toPrecision(2).slice(0, 4) + "|" + (123.456).toPrecision(4) + "|" + (0.0123).toPrecision(1)`, "1.2e|123.5|0.01"},
-	"Math.abs":                               {`Math.abs(-2.5) + "|" + Math.abs(3)`, "2.5|3"},
-	"Math.acos":                              {`Math.acos(1) + "|" + Math.acos(2) + "|" + (Math.abs(Math.acos(0) - Math.PI / 2) < 1e-15)`, "0|NaN|true"},
-	"Math.asin":                              {`Math.asin(0) + "|" + Math.asin(2) + "|" + (Math.abs(Math.asin(1) - Math.PI / 2) < 1e-15)`, "0|NaN|true"},
-	"Math.atan":                              {`Math.atan(0) + "|" + (Math.abs(Math.atan(1) - Math.PI / 4) < 1e-15) + "|" + (Math.abs(Math.atan(1/0) - Math.PI / 2) < 1e-15)`, "0|true|true"},
-	"Math.atan2":                             {`Math.atan2(0, 1) + "|" + (Math.abs(Math.atan2(1, 0) - Math.PI / 2) < 1e-15) + "|" + (Math.abs(Math.atan2(0, -1) - Math.PI) < 1e-15)`, "0|true|true"},
-	"Math.ceil":                              {`Math.ceil(1.2) + "|" + Math.ceil(-1.2) + "|" + Math.ceil(2)`, "2|-1|2"},
-	"Math.cos":                               {`Math.cos(0) + "|" + (Math.abs(Math.cos(Math.PI) + 1) < 1e-15)`, "1|true"},
-	"Math.exp":                               {`Math.exp(0) + "|" + (Math.abs(Math.exp(1) - Math.E) < 1e-15) + "|" + Math.exp(-1/0)`, "1|true|0"},
-	"Math.floor":                             {`Math.floor(1.8) + "|" + Math.floor(-1.2) + "|" + Math.floor(2)`, "1|-2|2"},
-	"Math.log":                               {`Math.log(1) + "|" + (Math.abs(Math.log(Math.E) - 1) < 1e-15) + "|" + Math.log(-1) + "|" + Math.log(0)`, "0|true|NaN|-Infinity"},
-	"Math.max":                               {`Math.max(1, 3, 2) + "|" + Math.max() + "|" + Math.max(1, NaN)`, "3|-Infinity|NaN"},
-	"Math.min":                               {`Math.min(1, 3, -2) + "|" + Math.min() + "|" + Math.min(1, NaN)`, "-2|Infinity|NaN"},
-	"Math.pow":                               {`Math.pow(2, 10) + "|" + Math.pow(4, 0.5) + "|" + Math.pow(2, -1)`, "1024|2|0.5"},
-	"Math.random":                            {`var r = Math.random(); (typeof r) + (r >= 0 && r < 1)`, "numbertrue"},
-	"Math.round":                             {`Math.round(2.5) + "|" + Math.round(-2.5) + "|" + Math.round(1.4) + "|" + Math.round(-1.6)`, "3|-2|1|-2"},
-	"Math.sin":                               {`Math.sin(0) + "|" + (Math.abs(Math.sin(Math.PI / 2) - 1) < 1e-15)`, "0|true"},
-	"Math.sqrt":                              {`Math.sqrt(9) + "|" + Math.sqrt(-1) + "|" + Math.sqrt(2.25)`, "3|NaN|1.5"},
-	"Math.tan":                               {`Math.tan(0) + "|" + (Math.abs(Math.tan(Math.PI / 4) - 1) < 1e-15)`, "0|true"},
-	"Date.parse":                             {`Date.parse("1970-01-02T00:00:00.000Z") + "|" + Date.parse("2000-01-01T00:00:00Z")`, "86400000|946684800000"},
-	"Date.UTC":                               {`Date.UTC(1970, 0, 2) + "|" + Date.UTC(2000, 1, 29, 1, 2, 3, 4)`, "86400000|951786123004"},
-	"Date.now":                               {`var n = Date.now(); (typeof n) + (n > 1e12) + (n === Math.floor(n))`, "numbertruetrue"},
-	"Date.prototype.toString":                {`typeof new Date(0).toString() + (new Date(NaN).toString())`, "stringInvalid Date"},
-	"Date.prototype.toDateString":            {`var s = new Date(2000, 5, 15, 12).toDateString(); (s.indexOf("2000") >= 0) + "|" + (s.indexOf("12:") < 0)`, "true|true"},
-	"Date.prototype.toTimeString":            {`var s = new Date(2000, 5, 15, 12, 34, 56).toTimeString(); (s.indexOf("12:34:56") >= 0) + "|" + (s.indexOf("2000") < 0)`, "true|true"},
-	"Date.prototype.toLocaleString":          {`typeof new Date(0).toLocaleString()`, "string"},
-	"Date.prototype.toLocaleDateString":      {`var s = new Date(2000, 5, 15, 12, 34, 56).toLocaleDateString(); (typeof s) + (s.indexOf("34:56") < 0)`, "stringtrue"},
-	"Date.prototype.toLocaleTimeString":      {`var s = new Date(2000, 5, 15, 12, 34, 56).toLocaleTimeString(); (typeof s) + (s.indexOf("34:56") >= 0)`, "stringtrue"},
-	"Date.prototype.valueOf":                 {`new Date(123).valueOf()`, "123"},
-	"Date.prototype.getTime":                 {`new Date(123).getTime()`, "123"},
-	"Date.prototype.getFullYear":             {`new Date(2001, 2, 3, 4, 5, 6, 7).getFullYear()`, "2001"},
-	"Date.prototype.getUTCFullYear":          {`new Date(Date.UTC(2001, 2, 3, 4, 5, 6, 7)).getUTCFullYear()`, "2001"},
-	"Date.prototype.getMonth":                {`new Date(2001, 2, 3, 4, 5, 6, 7).getMonth()`, "2"},
-	"Date.prototype.getUTCMonth":             {`new Date(Date.UTC(2001, 2, 3, 4, 5, 6, 7)).getUTCMonth()`, "2"},
-	"Date.prototype.getDate":                 {`new Date(2001, 2, 3, 4, 5, 6, 7).getDate()`, "3"},
-	"Date.prototype.getUTCDate":              {`new Date(Date.UTC(2001, 2, 3, 4, 5, 6, 7)).getUTCDate()`, "3"},
-	"Date.prototype.getDay":                  {`new Date(2001, 2, 3, 4, 5, 6, 7).getDay()`, "6"},
-	"Date.prototype.getUTCDay":               {`new Date(Date.UTC(2001, 2, 3, 12, 5, 6, 7)).getUTCDay()`, "6"},
-	"Date.prototype.getHours":                {`new Date(2001, 2, 3, 4, 5, 6, 7).getHours()`, "4"},
-	"Date.prototype.getUTCHours":             {`new Date(Date.UTC(2001, 2, 3, 4, 5, 6, 7)).getUTCHours()`, "4"},
-	"Date.prototype.getMinutes":              {`new Date(2001, 2, 3, 4, 5, 6, 7).getMinutes()`, "5"},
-	"Date.prototype.getUTCMinutes":           {`new Date(Date.UTC(2001, 2, 3, 4, 5, 6, 7)).getUTCMinutes()`, "5"},
-	"Date.prototype.getSeconds":              {`new Date(2001, 2, 3, 4, 5, 6, 7).getSeconds()`, "6"},
-	"Date.prototype.getUTCSeconds":           {`new Date(Date.UTC(2001, 2, 3, 4, 5, 6, 7)).getUTCSeconds()`, "6"},
-	"Date.prototype.getMilliseconds":         {`new Date(2001, 2, 3, 4, 5, 6, 7).getMilliseconds()`, "7"},
-	"Date.prototype.getUTCMilliseconds":      {`new Date(Date.UTC(2001, 2, 3, 4, 5, 6, 7)).getUTCMilliseconds()`, "7"},
-	"Date.prototype.getTimezoneOffset":       {`var d = new Date(2001, 2, 3, 4, 5, 6, 7); (d.getTimezoneOffset() === (Date.UTC(2001, 2, 3, 4, 5, 6, 7) - d.getTime()) / -60000)`, "true"},
-	"Date.prototype.setTime":                 {`var d = new Date(0); d.setTime(5) + "|" + d.getTime()`, "5|5"},
-	"Date.prototype.setMilliseconds":         {`var d = new Date(2001, 2, 3, 4, 5, 6, 7); d.setMilliseconds(9); d.getMilliseconds() + "|" + d.getSeconds()`, "9|6"},
-	"Date.prototype.setUTCMilliseconds":      {`var d = new Date(0); d.setUTCMilliseconds(9) + "|" + d.getTime()`, "9|9"},
-	"Date.prototype.setSeconds":              {`var d = new Date(2001, 2, 3, 4, 5, 6, 7); d.setSeconds(9, 1); d.getSeconds() + "|" + d.getMilliseconds() + "|" + d.getMinutes()`, "9|1|5"},
-	"Date.prototype.setUTCSeconds":           {`var d = new Date(0); d.setUTCSeconds(9, 1) + "|" + d.getTime()`, "9001|9001"},
-	"Date.prototype.setMinutes":              {`var d = new Date(2001, 2, 3, 4, 5, 6, 7); d.setMinutes(9, 1, 2); d.getMinutes() + "|" + d.getSeconds() + "|" + d.getMilliseconds() + "|" + d.getHours()`, "9|1|2|4"},
-	"Date.prototype.setUTCMinutes":           {`var d = new Date(0); d.setUTCMinutes(1, 2, 3) + "|" + d.getTime()`, "62003|62003"},
-	"Date.prototype.setHours":                {`var d = new Date(2001, 2, 3, 4, 5, 6, 7); d.setHours(9, 1, 2, 3); d.getHours() + "|" + d.getMinutes() + "|" + d.getSeconds() + "|" + d.getMilliseconds() + "|" + d.getDate()`, "9|1|2|3|3"},
-	"Date.prototype.setUTCHours":             {`var d = new Date(0); d.setUTCHours(1, 2, 3, 4) + "|" + d.getTime()`, "3723004|3723004"},
-	"Date.prototype.setDate":                 {`var d = new Date(2001, 2, 3, 4, 5, 6, 7); d.setDate(9); d.getDate() + "|" + d.getMonth() + "|" + d.getHours()`, "9|2|4"},
-	"Date.prototype.setUTCDate":              {`var d = new Date(0); d.setUTCDate(3) + "|" + d.getTime()`, "172800000|172800000"},
-	"Date.prototype.setMonth":                {`var d = new Date(2001, 2, 3, 4, 5, 6, 7); d.setMonth(5, 9); d.getMonth() + "|" + d.getDate() + "|" + d.getFullYear()`, "5|9|2001"},
-	"Date.prototype.setUTCMonth":             {`var d = new Date(0); d.setUTCMonth(1, 2) + "|" + d.getTime()`, "2764800000|2764800000"},
-	"Date.prototype.setFullYear":             {`var d = new Date(2001, 2, 3, 4, 5, 6, 7); d.setFullYear(1999, 5, 9); d.getFullYear() + "|" + d.getMonth() + "|" + d.getDate() + "|" + d.getHours()`, "1999|5|9|4"},
-	"Date.prototype.setUTCFullYear":          {`var d = new Date(0); d.setUTCFullYear(1971, 1, 2) + "|" + d.getTime()`, "34300800000|34300800000"},
-	"Date.prototype.toUTCString":             {`var s = new Date(0).toUTCString(); (s.indexOf("1970") >= 0) + "|" + (s.indexOf("00:00:00") >= 0) + "|" + (s.indexOf("T") < 0 || s.indexOf("GMT") >= 0 || s.indexOf("UTC") >= 0)`, "true|true|true"},
-	"Date.prototype.toISOString":             {`new Date(0).toISOString() + "|" + new Date(951786123004).toISOString()`, "1970-01-01T00:00:00.000Z|2000-02-29T01:02:03.004Z"},
-	"Date.prototype.toJSON":                  {`new Date(0).toJSON() + "|" + new Date(NaN).toJSON() + "|" + Date.prototype.toJSON.call({toISOString: function() { return "I" }, valueOf: function() { return 1 }})`, "1970-01-01T00:00:00.000Z|null|I"},
-	"RegExp.prototype.exec":                  {`var m = /b(c)?/.exec("abd"); m.index + "|" + m[0] + "|" + m[1] + "|" + m.input + "|" + /z/.exec("a")`, "1|b|undefined|abd|null"},
-	"RegExp.prototype.test":                  {`/b/.test("abc") + "|" + /z/.test("abc")`, "true|false"},
-	"RegExp.prototype.toString":              {`/a\/b/gi.toString() + "|" + new RegExp("x", "m").toString()`, "/a\\/b/gi|/x/m"},
-	"Error.prototype.toString":               {`new Error("m").toString() + "|" + Error.prototype.toString.call({name: "N", message: ""}) + "|" + Error.prototype.toString.call({message: "M"}) + "|" + Error.prototype.toString.call({name: "", message: "M"})`, "Error: m|N|Error: M|M"},
-	"JSON.parse":                             {`var o = JSON.parse('{"a":[1,{"b":null}]}'); o.a.length + "|" + o.a[1].b + "|" + JSON.parse("1e1")`, "2|null|10"},
-	"JSON.stringify":                         {`JSON.stringify({a: [1, {b: null}], c: "x"}) + "|" + JSON.stringify("a\"")`, `{"a":[1,{"b":null}],"c":"x"}|"a\""`},
+	"this.eval":                             {`var ex = "global"; (function(){ var ex = "local"; var r = eval("ex") + "|" + (0, eval)("ex"); eval("var ev = 5"); return r + "|" + ev + "|" + (typeof this.ev) })() + "|" + eval("1+2*3")`, "local|global|5|undefined|7"},
+	"this.parseInt":                         {`parseInt("12px", 10) + "|" + parseInt("ff", 16)`, "12|255"},
+	"this.parseFloat":                       {`parseFloat("1.5e1x")`, "15"},
+	"this.isNaN":                            {`isNaN("x") + "|" + isNaN(1) + "|" + isNaN(1/0)`, "true|false|false"},
+	"this.isFinite":                         {`isFinite("x") + "|" + isFinite(1) + "|" + isFinite(1/0)`, "false|true|false"},
+	"this.decodeURI":                        {`decodeURI("%41%23%3B%2f%3a%c3%A9")`, "A%23%3B%2f%3a\u00e9"},
+	"this.decodeURIComponent":               {`decodeURIComponent("%41%23%3B%2f%3a%c3%A9")`, "A#;/:\u00e9"},
+	"this.encodeURI":                        {`encodeURI("a b#;")`, "a%20b#;"},
+	"this.encodeURIComponent":               {`encodeURIComponent("a b#;")`, "a%20b%23%3B"},
+	"this.Object":                           {`Object(1) instanceof Number && typeof new Object() === "object" && Object.prototype.toString.call(new Object("s"))`, "[object String]"},
+	"this.Function":                         {`new Function("a", "b", "return a*b")(6, 7) + "|" + Function("return 5")()`, "42|5"},
+	"this.Array":                            {`new Array(3).length + "|" + Array(1, 2).join("-") + "|" + new Array("3").length`, "3|1-2|1"},
+	"this.String":                           {`String(12) + typeof String(1) + typeof new String(1) + new String("ab").length`, "12stringobject2"},
+	"this.Boolean":                          {`Boolean("") + "|" + Boolean("0") + "|" + typeof new Boolean(0) + "|" + typeof Boolean(0)`, "false|true|object|boolean"},
+	"this.Number":                           {`Number("0x10") + "|" + Number() + "|" + typeof new Number(1) + "|" + Number("")`, "16|0|object|0"},
+	"this.Date":                             {`new Date(0).getTime() + "|" + typeof Date() + "|" + new Date(2000, 0).getFullYear() + "|" + new Date(86400000).getUTCDate()`, "0|string|2000|2"},
+	"this.RegExp":                           {`new RegExp("a+", "g").source + "|" + RegExp("b", "i").ignoreCase + "|" + new RegExp("a+").exec("caab")[0]`, "a+|true|aa"},
+	"this.Error":                            {`new Error("m").message + "|" + Error("k").message + "|" + (Error("x") instanceof Error) + "|" + new Error("q").name`, "m|k|true|Error"},
+	"this.EvalError":                        {`var e = new EvalError("m"); e.name + "|" + e.message + "|" + (e instanceof Error) + (e instanceof EvalError) + (e instanceof TypeError)`, "EvalError|m|truetruefalse"},
+	"this.RangeError":                       {`var e = new RangeError("m"); e.name + "|" + e.message + "|" + (e instanceof Error) + (e instanceof RangeError) + (e instanceof TypeError)`, "RangeError|m|truetruefalse"},
+	"this.ReferenceError":                   {`var e = new ReferenceError("m"); e.name + "|" + e.message + "|" + (e instanceof Error) + (e instanceof ReferenceError) + (e instanceof TypeError)`, "ReferenceError|m|truetruefalse"},
+	"this.SyntaxError":                      {`var e = new SyntaxError("m"); e.name + "|" + e.message + "|" + (e instanceof Error) + (e instanceof SyntaxError) + (e instanceof TypeError)`, "SyntaxError|m|truetruefalse"},
+	"this.TypeError":                        {`var e = new TypeError("m"); e.name + "|" + e.message + "|" + (e instanceof Error) + (e instanceof TypeError) + (e instanceof RangeError)`, "TypeError|m|truetruefalse"},
+	"this.URIError":                         {`var e = new URIError("m"); e.name + "|" + e.message + "|" + (e instanceof Error) + (e instanceof URIError) + (e instanceof TypeError)`, "URIError|m|truetruefalse"},
+	"Object.getPrototypeOf":                 {`Object.getPrototypeOf([]) === Array.prototype`, "true"},
+	"Object.getOwnPropertyDescriptor":       {`var d = Object.getOwnPropertyDescriptor([1], "length"); d.value + "|" + d.writable + d.enumerable + d.configurable`, "1|truefalsefalse"},
+	"Object.getOwnPropertyNames":            {`Object.getOwnPropertyNames([7]).sort().join()`, "0,length"},
+	"Object.create":                         {`var p = {a: 1}; var o = Object.create(p, {b: {value: 2}}); o.a + "|" + o.b + "|" + (Object.getPrototypeOf(o) === p) + "|" + Object.keys(o).length`, "1|2|true|0"},
+	"Object.defineProperty":                 {`var o = {}; var r = Object.defineProperty(o, "x", {value: 3}); (r === o) + "|" + o.x + "|" + Object.keys(o).length`, "true|3|0"},
+	"Object.defineProperties":               {`var o = {}; Object.defineProperties(o, {x: {value: 3, enumerable: true}, y: {value: 4}}); o.x + o.y + "|" + Object.keys(o).join()`, "7|x"},
+	"Object.seal":                           {`var o = {a: 1}; Object.seal(o); o.a = 2; delete o.a; o.b = 1; o.a + "|" + ("b" in o) + "|" + Object.isSealed(o) + Object.isFrozen(o)`, "2|false|truefalse"},
+	"Object.freeze":                         {`var o = {a: 1}; Object.freeze(o); o.a = 2; delete o.a; o.b = 1; o.a + "|" + ("b" in o) + "|" + Object.isFrozen(o)`, "1|false|true"},
+	"Object.preventExtensions":              {`var o = {a: 1}; Object.preventExtensions(o); o.a = 2; o.b = 1; var r = o.a + "|" + ("b" in o); delete o.a; r + "|" + ("a" in o) + Object.isSealed({})`, "2|false|falsefalse"},
+	"Object.isSealed":                       {`Object.isSealed(Object.seal({a: 1})) + "|" + Object.isSealed({a: 1}) + "|" + Object.isSealed(Object.preventExtensions({a: 1})) + "|" + Object.isSealed(Object.preventExtensions({}))`, "true|false|false|true"},
+	"Object.isFrozen":                       {`Object.isFrozen(Object.seal({a: 1})) + "|" + Object.isFrozen(Object.freeze({a: 1})) + "|" + Object.isFrozen({})`, "false|true|false"},
+	"Object.isExtensible":                   {`Object.isExtensible({}) + "|" + Object.isExtensible(Object.preventExtensions({}))`, "true|false"},
+	"Object.keys":                           {`Object.keys({b: 1, a: 2}).join() + "|" + Object.keys([5]).join()`, "b,a|0"},
+	"Object.prototype.toString":             {`Object.prototype.toString.call([]) + Object.prototype.toString.call(null)`, "[object Array][object Null]"},
+	"Object.prototype.toLocaleString":       {`Object.prototype.toLocaleString.call({toString: function() { return "T" }})`, "T"},
+	"Object.prototype.valueOf":              {`var o = {}; (o.valueOf() === o) + "|" + typeof Object.prototype.valueOf.call(1)`, "true|object"},
+	"Object.prototype.hasOwnProperty":       {`({a: 1}).hasOwnProperty("a") + "|" + ({}).hasOwnProperty("toString")`, "true|false"},
+	"Object.prototype.isPrototypeOf":        {`Array.prototype.isPrototypeOf([]) + "|" + Array.prototype.isPrototypeOf({}) + "|" + Object.prototype.isPrototypeOf([])`, "true|false|true"},
+	"Object.prototype.propertyIsEnumerable": {`[1].propertyIsEnumerable("0") + "|" + [1].propertyIsEnumerable("length") + "|" + ({}).propertyIsEnumerable("toString")`, "true|false|false"},
+	"Function.prototype.toString":           {`typeof Function.prototype.toString.call(function() {}) + "|" + (function() { try { Function.prototype.toString.call({}); return "no" } catch (e) { return e instanceof TypeError } })()`, "string|true"},
+	"Function.prototype.apply":              {`(function(a, b) { return this.x + a + b }).apply({x: 1}, [2, 3])`, "6"},
+	"Function.prototype.call":               {`(function(a, b) { return this.x + a + b }).call({x: 1}, 2, 3)`, "6"},
+	"Function.prototype.bind":               {`var f = (function(a, b) { return this.x + a + b }).bind({x: 1}, 2); f(3) + "|" + f.length`, "6|1"},
+	"Array.isArray":                         {`Array.isArray([]) + "|" + Array.isArray({length: 0}) + "|" + Array.isArray(Array.prototype)`, "true|false|true"},
+	"Array.prototype.toString":              {`[1, [2, 3]].toString() + "|" + Array.prototype.toString.call({join: function() { return "J" }})`, "1,2,3|J"},
+	"Array.prototype.toLocaleString":        {`[{toLocaleString: function() { return "L" }, toString: function() { return "S" }}, 2].toLocaleString().charAt(0)`, "L"},
+	"Array.prototype.concat":                {`[1].concat([2, [3]], 4).length + "|" + [1].concat(2).join("")`, "4|12"},
+	"Array.prototype.join":                  {`[1, null, 3].join("-") + "|" + [1, 2].join()`, "1--3|1,2"},
+	"Array.prototype.pop":                   {`var a = [1, 2, 3]; a.pop() + "|" + a.join()`, "3|1,2"},
+	"Array.prototype.push":                  {`var a = [1]; a.push(2, 3) + "|" + a.join()`, "3|1,2,3"},
+	"Array.prototype.reverse":               {`[1, 2, 3].reverse().join()`, "3,2,1"},
+	"Array.prototype.shift":                 {`var a = [1, 2, 3]; a.shift() + "|" + a.join()`, "1|2,3"},
+	"Array.prototype.slice":                 {`[1, 2, 3, 4].slice(1, -1).join()`, "2,3"},
+	"Array.prototype.sort":                  {`[3, 1, 10, 2].sort().join() + "|" + [3, 1, 10, 2].sort(function(a, b) { return a - b }).join()`, "1,10,2,3|1,2,3,10"},
+	"Array.prototype.splice":                {`var a = [1, 2, 3, 4]; a.splice(1, 2, 9).join() + "|" + a.join()`, "2,3|1,9,4"},
+	"Array.prototype.unshift":               {`var a = [3]; a.unshift(1, 2) + "|" + a.join()`, "3|1,2,3"},
+	"Array.prototype.indexOf":               {`[1, 2, 1].indexOf(1) + "|" + [1, 2, 1].indexOf(1, 1) + "|" + [1].indexOf(3)`, "0|2|-1"},
+	"Array.prototype.lastIndexOf":           {`[1, 2, 1].lastIndexOf(1) + "|" + [1, 2, 1].lastIndexOf(1, 1) + "|" + [1].lastIndexOf(3)`, "2|0|-1"},
+	"Array.prototype.every":                 {`[1, 2].every(function(x) { return x > 0 }) + "|" + [1, 2].every(function(x) { return x > 1 }) + "|" + [].every(function() { return false })`, "true|false|true"},
+	"Array.prototype.some":                  {`[1, 2].some(function(x) { return x > 1 }) + "|" + [1, 2].some(function(x) { return x > 2 }) + "|" + [].some(function() { return true })`, "true|false|false"},
+	"Array.prototype.forEach":               {`var s = ""; var r = [1, 2].forEach(function(x, i) { s += x + ":" + i + ";" }); s + r`, "1:0;2:1;undefined"},
+	"Array.prototype.map":                   {`[1, 2].map(function(x) { return x * 2 }).join()`, "2,4"},
+	"Array.prototype.filter":                {`[1, 2, 3].filter(function(x) { return x % 2 }).join()`, "1,3"},
+	"Array.prototype.reduce":                {`["a", "b", "c"].reduce(function(a, x) { return a + x })`, "abc"},
+	"Array.prototype.reduceRight":           {`["a", "b", "c"].reduceRight(function(a, x) { return a + x })`, "cba"},
+	"String.fromCharCode":                   {`String.fromCharCode(97, 65601)`, "aA"},
+	"String.prototype.toString":             {`new String("x").toString() + typeof new String("x").toString() + (function() { try { String.prototype.toString.call(1); return "no" } catch (e) { return e instanceof TypeError } })()`, "xstringtrue"},
+	"String.prototype.valueOf":              {`typeof new String("x").valueOf() + (function() { try { String.prototype.valueOf.call({}); return "no" } catch (e) { return e instanceof TypeError } })()`, "stringtrue"},
+	"String.prototype.charAt":               {`"abc".charAt(1) + "|" + "abc".charAt(5) + "|"`, "b||"},
+	"String.prototype.charCodeAt":           {`"abc".charCodeAt(1) + "|" + "abc".charCodeAt(5)`, "98|NaN"},
+	"String.prototype.concat":               {`"a".concat("b", 1, null)`, "ab1null"},
+	"String.prototype.indexOf":              {`"abcab".indexOf("b") + "|" + "abcab".indexOf("b", 2) + "|" + "a".indexOf("z")`, "1|4|-1"},
+	"String.prototype.lastIndexOf":          {`"abcab".lastIndexOf("b") + "|" + "abcab".lastIndexOf("b", 3) + "|" + "a".lastIndexOf("z")`, "4|1|-1"},
+	"String.prototype.localeCompare":        {`"a".localeCompare("a") + "|" + ("a".localeCompare("b") < 0) + "|" + ("b".localeCompare("a") > 0)`, "0|true|true"},
+	"String.prototype.match":                {`"a1b22".match(/\d+/g).join() + "|" + "a1b22".match(/(\d)(\d)/)[2] + "|" + "x".match(/y/)`, "1,22|2|null"},
+	"String.prototype.replace":              {`"aXbX".replace("X", "-") + "|" + "aXbX".replace(/X/g, "-")`, "a-bX|a-b-"},
+	"String.prototype.search":               {`"abc".search(/c/) + "|" + "abc".search("z")`, "2|-1"},
+	"String.prototype.slice":                {`"abcd".slice(1, -1) + "|" + "abcd".slice(3, 1) + "|"`, "bc||"},
+	"String.prototype.split":                {`"a,b,c".split(",", 2).join("|") + "#" + "ab".split("").length`, "a|b#2"},
+	"String.prototype.substring":            {`"abcd".substring(3, 1) + "|" + "abcd".substring(-1, 2)`, "bc|ab"},
+	"String.prototype.toLowerCase":          {`"aBc".toLowerCase()`, "abc"},
+	"String.prototype.toLocaleLowerCase":    {`"aBc".toLocaleLowerCase()`, "abc"},
+	"String.prototype.toUpperCase":          {`"aBc".toUpperCase()`, "ABC"},
+	"String.prototype.toLocaleUpperCase":    {`"aBc".toLocaleUpperCase()`, "ABC"},
+	"String.prototype.trim":                 {`"[" + " \t\n a b \r\n".trim() + "]"`, "[a b]"},
+	"Boolean.prototype.toString":            {`true.toString() + new Boolean(false).toString() + (function() { try { Boolean.prototype.toString.call(1); return "no" } catch (e) { return e instanceof TypeError } })()`, "truefalsetrue"},
+	"Boolean.prototype.valueOf":             {`typeof new Boolean(false).valueOf() + new Boolean(false).valueOf()`, "booleanfalse"},
+	"Number.prototype.toString":             {`(255).toString(16) + "|" + (255).toString() + "|" + (-5).toString(2)`, "ff|255|-101"},
+	"Number.prototype.toLocaleString":       {`typeof (1).toLocaleString()`, "string"},
+	"Number.prototype.valueOf":              {`typeof new Number(3).valueOf() + new Number(3).valueOf()`, "number3"},
+	"Number.prototype.toFixed":              {`(1.005).toFixed(1) + "|" + (12).toFixed(2) + "|" + (1e21).toFixed(2)`, "1.0|12.00|1e+21"},
+	"Number.prototype.toExponential":        {`(12345).toExponential(2).slice(0, 5) + "|" + (0).toExponential(1).slice(0, 4)`, "1.23e|0.0e"},
+	"Number.prototype.toPrecision":          {`(12345).toPrecision(2).slice(0, 4) + "|" + (123.456).toPrecision(4) + "|" + (0.0123).toPrecision(1)`, "1.2e|123.5|0.01"},
+	"Math.abs":                              {`Math.abs(-2.5) + "|" + Math.abs(3)`, "2.5|3"},
+	"Math.acos":                             {`Math.acos(1) + "|" + Math.acos(2) + "|" + (Math.abs(Math.acos(0) - Math.PI / 2) < 1e-15)`, "0|NaN|true"},
+	"Math.asin":                             {`Math.asin(0) + "|" + Math.asin(2) + "|" + (Math.abs(Math.asin(1) - Math.PI / 2) < 1e-15)`, "0|NaN|true"},
+	"Math.atan":                             {`Math.atan(0) + "|" + (Math.abs(Math.atan(1) - Math.PI / 4) < 1e-15) + "|" + (Math.abs(Math.atan(1/0) - Math.PI / 2) < 1e-15)`, "0|true|true"},
+	"Math.atan2":                            {`Math.atan2(0, 1) + "|" + (Math.abs(Math.atan2(1, 0) - Math.PI / 2) < 1e-15) + "|" + (Math.abs(Math.atan2(0, -1) - Math.PI) < 1e-15)`, "0|true|true"},
+	"Math.ceil":                             {`Math.ceil(1.2) + "|" + Math.ceil(-1.2) + "|" + Math.ceil(2)`, "2|-1|2"},
+	"Math.cos":                              {`Math.cos(0) + "|" + (Math.abs(Math.cos(Math.PI) + 1) < 1e-15)`, "1|true"},
+	"Math.exp":                              {`Math.exp(0) + "|" + (Math.abs(Math.exp(1) - Math.E) < 1e-15) + "|" + Math.exp(-1/0)`, "1|true|0"},
+	"Math.floor":                            {`Math.floor(1.8) + "|" + Math.floor(-1.2) + "|" + Math.floor(2)`, "1|-2|2"},
+	"Math.log":                              {`Math.log(1) + "|" + (Math.abs(Math.log(Math.E) - 1) < 1e-15) + "|" + Math.log(-1) + "|" + Math.log(0)`, "0|true|NaN|-Infinity"},
+	"Math.max":                              {`Math.max(1, 3, 2) + "|" + Math.max() + "|" + Math.max(1, NaN)`, "3|-Infinity|NaN"},
+	"Math.min":                              {`Math.min(1, 3, -2) + "|" + Math.min() + "|" + Math.min(1, NaN)`, "-2|Infinity|NaN"},
+	"Math.pow":                              {`Math.pow(2, 10) + "|" + Math.pow(4, 0.5) + "|" + Math.pow(2, -1)`, "1024|2|0.5"},
+	"Math.random":                           {`var r = Math.random(); (typeof r) + (r >= 0 && r < 1)`, "numbertrue"},
+	"Math.round":                            {`Math.round(2.5) + "|" + Math.round(-2.5) + "|" + Math.round(1.4) + "|" + Math.round(-1.6)`, "3|-2|1|-2"},
+	"Math.sin":                              {`Math.sin(0) + "|" + (Math.abs(Math.sin(Math.PI / 2) - 1) < 1e-15)`, "0|true"},
+	"Math.sqrt":                             {`Math.sqrt(9) + "|" + Math.sqrt(-1) + "|" + Math.sqrt(2.25)`, "3|NaN|1.5"},
+	"Math.tan":                              {`Math.tan(0) + "|" + (Math.abs(Math.tan(Math.PI / 4) - 1) < 1e-15)`, "0|true"},
+	"Date.parse":                            {`Date.parse("1970-01-02T00:00:00.000Z") + "|" + Date.parse("2000-01-01T00:00:00Z")`, "86400000|946684800000"},
+	"Date.UTC":                              {`Date.UTC(1970, 0, 2) + "|" + Date.UTC(2000, 1, 29, 1, 2, 3, 4)`, "86400000|951786123004"},
+	"Date.now":                              {`var n = Date.now(); (typeof n) + (n > 1e12) + (n === Math.floor(n))`, "numbertruetrue"},
+	"Date.prototype.toString":               {`typeof new Date(0).toString() + (new Date(NaN).toString())`, "stringInvalid Date"},
+	"Date.prototype.toDateString":           {`var s = new Date(2000, 5, 15, 12).toDateString(); (s.indexOf("2000") >= 0) + "|" + (s.indexOf("12:") < 0)`, "true|true"},
+	"Date.prototype.toTimeString":           {`var s = new Date(2000, 5, 15, 12, 34, 56).toTimeString(); (s.indexOf("12:34:56") >= 0) + "|" + (s.indexOf("2000") < 0)`, "true|true"},
+	"Date.prototype.toLocaleString":         {`typeof new Date(0).toLocaleString()`, "string"},
+	"Date.prototype.toLocaleDateString":     {`var s = new Date(2000, 5, 15, 12, 34, 56).toLocaleDateString(); (typeof s) + (s.indexOf("34:56") < 0)`, "stringtrue"},
+	"Date.prototype.toLocaleTimeString":     {`var s = new Date(2000, 5, 15, 12, 34, 56).toLocaleTimeString(); (typeof s) + (s.indexOf("34:56") >= 0)`, "stringtrue"},
+	"Date.prototype.valueOf":                {`new Date(123).valueOf()`, "123"},
+	"Date.prototype.getTime":                {`new Date(123).getTime()`, "123"},
+	"Date.prototype.getFullYear":            {`new Date(2001, 2, 3, 4, 5, 6, 7).getFullYear()`, "2001"},
+	"Date.prototype.getUTCFullYear":         {`new Date(Date.UTC(2001, 2, 3, 4, 5, 6, 7)).getUTCFullYear()`, "2001"},
+	"Date.prototype.getMonth":               {`new Date(2001, 2, 3, 4, 5, 6, 7).getMonth()`, "2"},
+	"Date.prototype.getUTCMonth":            {`new Date(Date.UTC(2001, 2, 3, 4, 5, 6, 7)).getUTCMonth()`, "2"},
+	"Date.prototype.getDate":                {`new Date(2001, 2, 3, 4, 5, 6, 7).getDate()`, "3"},
+	"Date.prototype.getUTCDate":             {`new Date(Date.UTC(2001, 2, 3, 4, 5, 6, 7)).getUTCDate()`, "3"},
+	"Date.prototype.getDay":                 {`new Date(2001, 2, 3, 4, 5, 6, 7).getDay()`, "6"},
+	"Date.prototype.getUTCDay":              {`new Date(Date.UTC(2001, 2, 3, 12, 5, 6, 7)).getUTCDay()`, "6"},
+	"Date.prototype.getHours":               {`new Date(2001, 2, 3, 4, 5, 6, 7).getHours()`, "4"},
+	"Date.prototype.getUTCHours":            {`new Date(Date.UTC(2001, 2, 3, 4, 5, 6, 7)).getUTCHours()`, "4"},
+	"Date.prototype.getMinutes":             {`new Date(2001, 2, 3, 4, 5, 6, 7).getMinutes()`, "5"},
+	"Date.prototype.getUTCMinutes":          {`new Date(Date.UTC(2001, 2, 3, 4, 5, 6, 7)).getUTCMinutes()`, "5"},
+	"Date.prototype.getSeconds":             {`new Date(2001, 2, 3, 4, 5, 6, 7).getSeconds()`, "6"},
+	"Date.prototype.getUTCSeconds":          {`new Date(Date.UTC(2001, 2, 3, 4, 5, 6, 7)).getUTCSeconds()`, "6"},
+	"Date.prototype.getMilliseconds":        {`new Date(2001, 2, 3, 4, 5, 6, 7).getMilliseconds()`, "7"},
+	"Date.prototype.getUTCMilliseconds":     {`new Date(Date.UTC(2001, 2, 3, 4, 5, 6, 7)).getUTCMilliseconds()`, "7"},
+	"Date.prototype.getTimezoneOffset":      {`var d = new Date(2001, 2, 3, 4, 5, 6, 7); (d.getTimezoneOffset() === (Date.UTC(2001, 2, 3, 4, 5, 6, 7) - d.getTime()) / -60000)`, "true"},
+	"Date.prototype.setTime":                {`var d = new Date(0); d.setTime(5) + "|" + d.getTime()`, "5|5"},
+	"Date.prototype.setMilliseconds":        {`var d = new Date(2001, 2, 3, 4, 5, 6, 7); d.setMilliseconds(9); d.getMilliseconds() + "|" + d.getSeconds()`, "9|6"},
+	"Date.prototype.setUTCMilliseconds":     {`var d = new Date(0); d.setUTCMilliseconds(9) + "|" + d.getTime()`, "9|9"},
+	"Date.prototype.setSeconds":             {`var d = new Date(2001, 2, 3, 4, 5, 6, 7); d.setSeconds(9, 1); d.getSeconds() + "|" + d.getMilliseconds() + "|" + d.getMinutes()`, "9|1|5"},
+	"Date.prototype.setUTCSeconds":          {`var d = new Date(0); d.setUTCSeconds(9, 1) + "|" + d.getTime()`, "9001|9001"},
+	"Date.prototype.setMinutes":             {`var d = new Date(2001, 2, 3, 4, 5, 6, 7); d.setMinutes(9, 1, 2); d.getMinutes() + "|" + d.getSeconds() + "|" + d.getMilliseconds() + "|" + d.getHours()`, "9|1|2|4"},
+	"Date.prototype.setUTCMinutes":          {`var d = new Date(0); d.setUTCMinutes(1, 2, 3) + "|" + d.getTime()`, "62003|62003"},
+	"Date.prototype.setHours":               {`var d = new Date(2001, 2, 3, 4, 5, 6, 7); d.setHours(9, 1, 2, 3); d.getHours() + "|" + d.getMinutes() + "|" + d.getSeconds() + "|" + d.getMilliseconds() + "|" + d.getDate()`, "9|1|2|3|3"},
+	"Date.prototype.setUTCHours":            {`var d = new Date(0); d.setUTCHours(1, 2, 3, 4) + "|" + d.getTime()`, "3723004|3723004"},
+	"Date.prototype.setDate":                {`var d = new Date(2001, 2, 3, 4, 5, 6, 7); d.setDate(9); d.getDate() + "|" + d.getMonth() + "|" + d.getHours()`, "9|2|4"},
+	"Date.prototype.setUTCDate":             {`var d = new Date(0); d.setUTCDate(3) + "|" + d.getTime()`, "172800000|172800000"},
+	"Date.prototype.setMonth":               {`var d = new Date(2001, 2, 3, 4, 5, 6, 7); d.setMonth(5, 9); d.getMonth() + "|" + d.getDate() + "|" + d.getFullYear()`, "5|9|2001"},
+	"Date.prototype.setUTCMonth":            {`var d = new Date(0); d.setUTCMonth(1, 2) + "|" + d.getTime()`, "2764800000|2764800000"},
+	"Date.prototype.setFullYear":            {`var d = new Date(2001, 2, 3, 4, 5, 6, 7); d.setFullYear(1999, 5, 9); d.getFullYear() + "|" + d.getMonth() + "|" + d.getDate() + "|" + d.getHours()`, "1999|5|9|4"},
+	"Date.prototype.setUTCFullYear":         {`var d = new Date(0); d.setUTCFullYear(1971, 1, 2) + "|" + d.getTime()`, "34300800000|34300800000"},
+	"Date.prototype.toUTCString":            {`var s = new Date(0).toUTCString(); (s.indexOf("1970") >= 0) + "|" + (s.indexOf("00:00:00") >= 0) + "|" + (s.indexOf("T") < 0 || s.indexOf("GMT") >= 0 || s.indexOf("UTC") >= 0)`, "true|true|true"},
+	"Date.prototype.toISOString":            {`new Date(0).toISOString() + "|" + new Date(951786123004).toISOString()`, "1970-01-01T00:00:00.000Z|2000-02-29T01:02:03.004Z"},
+	"Date.prototype.toJSON":                 {`new Date(0).toJSON() + "|" + new Date(NaN).toJSON() + "|" + Date.prototype.toJSON.call({toISOString: function() { return "I" }, valueOf: function() { return 1 }})`, "1970-01-01T00:00:00.000Z|null|I"},
+	"RegExp.prototype.exec":                 {`var m = /b(c)?/.exec("abd"); m.index + "|" + m[0] + "|" + m[1] + "|" + m.input + "|" + /z/.exec("a")`, "1|b|undefined|abd|null"},
+	"RegExp.prototype.test":                 {`/b/.test("abc") + "|" + /z/.test("abc")`, "true|false"},
+	"RegExp.prototype.toString":             {`/a\/b/gi.toString() + "|" + new RegExp("x", "m").toString()`, "/a\\/b/gi|/x/m"},
+	"Error.prototype.toString":              {`new Error("m").toString() + "|" + Error.prototype.toString.call({name: "N", message: ""}) + "|" + Error.prototype.toString.call({message: "M"}) + "|" + Error.prototype.toString.call({name: "", message: "M"})`, "Error: m|N|Error: M|M"},
+	"JSON.parse":                            {`var o = JSON.parse('{"a":[1,{"b":null}]}'); o.a.length + "|" + o.a[1].b + "|" + JSON.parse("1e1")`, "2|null|10"},
+	"JSON.stringify":                        {`JSON.stringify({a: [1, {b: null}], c: "x"}) + "|" + JSON.stringify("a\"")`, `{"a":[1,{"b":null}],"c":"x"}|"a\""`},
 }
 
 // Rows is the parsed table.
